@@ -630,3 +630,135 @@ fn p_ext_struct_walk() {
         },
     }
 }
+
+// ---------------------------------------------------------------------------------------------------------------------------
+// C04, lax family, slim comparison: `LaxPacketHeaders::from_ip` vs `LaxSlicedPacket::from_ip` on the facts the property names
+// (transport kind, UDP header fields, payload byte range, stop error) without comparing whole header structs (the 8 KiB
+// `Ipv6Extensions` inside `IpHeaders` makes full struct comparisons take an hour in CBMC).
+// ---------------------------------------------------------------------------------------------------------------------------
+
+fn c04_lax_check(s: &[u8]) {
+    kani::cover!(s.len() >= 28); // the selector of the harness leaves room for a transport header
+    let h = LaxPacketHeaders::from_ip(s);
+    let p = LaxSlicedPacket::from_ip(s);
+    match (h, p) {
+        (Ok(h), Ok(p)) => {
+            assert!(h.stop_err == p.stop_err, "lax struct decoding and lax slicing stop for different reasons");
+            match (&h.transport, &p.transport) {
+                (None, None) => {}
+                (Some(TransportHeader::Udp(hu)), Some(TransportSlice::Udp(pu))) => {
+                    assert!(hu.source_port == pu.source_port() && hu.destination_port == pu.destination_port() && hu.length == pu.length() && hu.checksum == pu.checksum(),
+                        "UDP header fields differ between lax struct decoding and lax slicing");
+                    match &h.payload {
+                        LaxPayloadSlice::Udp { payload, .. } => {
+                            assert!(payload.as_ptr() == pu.payload().as_ptr() && payload.len() == pu.payload().len(),
+                                "UDP payload range differs between lax struct decoding and lax slicing");
+                        }
+                        _ => panic!("UDP header without UDP payload"),
+                    }
+                    kani::cover!(pu.payload().len() == 4);
+                }
+                (Some(TransportHeader::Tcp(ht)), Some(TransportSlice::Tcp(pt))) => {
+                    assert!(ht.source_port == pt.source_port() && ht.header_len() == pt.header_len());
+                    match &h.payload {
+                        LaxPayloadSlice::Tcp { payload, .. } => assert!(payload.as_ptr() == pt.payload().as_ptr() && payload.len() == pt.payload().len()),
+                        _ => panic!("TCP header without TCP payload"),
+                    }
+                }
+                (Some(TransportHeader::Icmpv4(_)), Some(TransportSlice::Icmpv4(_))) => {}
+                (Some(TransportHeader::Icmpv6(_)), Some(TransportSlice::Icmpv6(_))) => {}
+                _ => panic!("transport layer kind differs between lax struct decoding and lax slicing"),
+            }
+            kani::cover!(h.stop_err.is_some());
+        }
+        (Err(a), Err(b)) => assert!(a == b, "lax struct decoding and lax slicing refuse for different reasons"),
+        _ => panic!("verdict differs between lax struct decoding and lax slicing"),
+    }
+}
+
+/// C04 bounded (all inputs 1..=40 B, b[0] == 0x45, protocol UDP)
+#[kani::proof]
+#[kani::unwind(4)]
+fn c04_lax_headers_vs_sliced_ip_v4_udp() {
+    let mut b: [u8; 40] = kani::any();
+    let l: usize = kani::any();
+    kani::assume(l >= 1 && l <= 40);
+    b[0] = 0x45;
+    b[9] = 17;
+    c04_lax_check(&b[..l]);
+}
+
+/// `PacketHeaders::from_ip_slice` vs `SlicedPacket::from_ip` on the facts C04 names: verdict (same error value), transport layer kind,
+/// transport header fields that delimit the payload, and the byte range of the remaining payload
+fn c04_strict_check(s: &[u8]) {
+    kani::cover!(s.len() >= 28); // the selector of the harness leaves room for a transport header
+    let h = PacketHeaders::from_ip_slice(s);
+    let p = SlicedPacket::from_ip(s);
+    match (h, p) {
+        (Ok(h), Ok(p)) => {
+            let hp = h.payload.slice();
+            match (&h.transport, &p.transport) {
+                (None, None) => {
+                    // the payload is the IP payload
+                    let ipp = match &p.net {
+                        Some(NetSlice::Ipv4(v)) => v.payload().payload,
+                        Some(NetSlice::Ipv6(v)) => v.payload().payload,
+                        _ => panic!("IP door without IP layer"),
+                    };
+                    assert!(hp.as_ptr() == ipp.as_ptr() && hp.len() == ipp.len(), "IP payload range differs between struct decoding and slicing");
+                }
+                (Some(TransportHeader::Udp(hu)), Some(TransportSlice::Udp(pu))) => {
+                    assert!(hu.source_port == pu.source_port() && hu.destination_port == pu.destination_port() && hu.length == pu.length() && hu.checksum == pu.checksum(),
+                        "UDP header fields differ between struct decoding and slicing");
+                    assert!(hp.as_ptr() == pu.payload().as_ptr() && hp.len() == pu.payload().len(), "UDP payload range differs between struct decoding and slicing");
+                    kani::cover!(pu.payload().len() == 4);
+                }
+                (Some(TransportHeader::Tcp(ht)), Some(TransportSlice::Tcp(pt))) => {
+                    assert!(ht.source_port == pt.source_port() && ht.destination_port == pt.destination_port() && ht.header_len() == pt.header_len()
+                        && ht.sequence_number == pt.sequence_number(), "TCP header fields differ between struct decoding and slicing");
+                    assert!(hp.as_ptr() == pt.payload().as_ptr() && hp.len() == pt.payload().len(), "TCP payload range differs between struct decoding and slicing");
+                    kani::cover!(pt.payload().len() == 2);
+                }
+                (Some(TransportHeader::Icmpv4(_)), Some(TransportSlice::Icmpv4(pi))) => {
+                    assert!(hp.as_ptr() == pi.payload().as_ptr() && hp.len() == pi.payload().len(), "ICMPv4 payload range differs");
+                }
+                (Some(TransportHeader::Icmpv6(_)), Some(TransportSlice::Icmpv6(pi))) => {
+                    assert!(hp.as_ptr() == pi.payload().as_ptr() && hp.len() == pi.payload().len(), "ICMPv6 payload range differs");
+                }
+                _ => panic!("transport layer kind differs between struct decoding and slicing"),
+            }
+        }
+        (Err(a), Err(b)) => assert!(a == b, "struct decoding and slicing refuse for different reasons"),
+        _ => panic!("verdict differs between struct decoding and slicing"),
+    }
+}
+
+macro_rules! c04_slim {
+    ($(#[$m:meta])* $name:ident, $check:ident, $n:expr, $unwind:expr, |$b:ident| $fix:block) => {
+        $(#[$m])*
+        #[kani::proof]
+        #[kani::unwind($unwind)]
+        fn $name() {
+            let mut $b: [u8; $n] = kani::any();
+            let l: usize = kani::any();
+            kani::assume(l >= 1 && l <= $n);
+            $fix;
+            $check(&$b[..l]);
+        }
+    };
+}
+c04_slim!(
+    /// C04 bounded (all inputs 1..=40 B, b[0] == 0x45, protocol UDP): strict struct decoding vs slicing
+    c04_slim_ip_v4_udp, c04_strict_check, 40, 4, |b| { b[0] = 0x45; b[9] = 17; });
+c04_slim!(
+    /// C04 bounded (all inputs 1..=44 B, b[0] == 0x45, protocol TCP)
+    c04_slim_ip_v4_tcp, c04_strict_check, 44, 4, |b| { b[0] = 0x45; b[9] = 6; });
+c04_slim!(
+    /// C04 bounded (all inputs 1..=56 B, b[0] == 0x60, next header UDP; payload length field symbolic incl. 0)
+    c04_slim_ip_v6_udp, c04_strict_check, 56, 4, |b| { b[0] = 0x60; b[6] = 17; });
+c04_slim!(
+    /// C04 bounded, lax family (all inputs 1..=44 B, b[0] == 0x45, protocol TCP)
+    c04_lax_headers_vs_sliced_ip_v4_tcp, c04_lax_check, 44, 4, |b| { b[0] = 0x45; b[9] = 6; });
+c04_slim!(
+    /// C04 bounded, lax family (all inputs 1..=56 B, b[0] == 0x60, next header UDP)
+    c04_lax_headers_vs_sliced_ip_v6_udp, c04_lax_check, 56, 4, |b| { b[0] = 0x60; b[6] = 17; });
